@@ -206,6 +206,9 @@ package cache
 //@ extern io.Copy(dst io.Writer, src io.Reader) (written int64, err error)
 //@   modifies ghost.hashed
 //@   ensures forall h hash.Hash :: {h in hashed} h != dst ==> (h in hashed) == (h in old(hashed)) && hashed[h] == old(hashed)[h]
+//@   ensures written >= 0
+// copying a source that was rewound into a fresh hash: everything is read and hashed
+//@   ensures err == nil && get(old(rpos), src) == 0 && len(get(old(hashed), dst)) == 0 ==> written == len(rdata(src)) && (dst in hashed) && len(hashed[dst]) == len(rdata(src)) && (forall i int :: {hashed[dst][i]} 0 <= i && i < len(rdata(src)) ==> hashed[dst][i] == rdata(src)[i])
 
 // the crash invariant of the data file of output id out: whenever the file has the size that
 // index entries promise, it has the promised content
@@ -250,3 +253,19 @@ package cache
 //@   requires overwritten(nw, prev, off, b, 0, n) && off == size - 1 && size >= 1 && 0 <= n && n <= 1 && len(b) == 1 && b[0] == data[size-1] && len(data) == size && out == sha(data) && size - 1 <= len(prev) && len(prev) <= size && (forall i int :: {prev[i]} 0 <= i && i < size - 1 ==> prev[i] == data[i]) && (len(prev) == size ==> sha(prev) == out)
 //@   ensures  len(nw) == size ==> sha(nw) == out
 //@   trigger  overwritten(nw, prev, off, b, 0, n), sha(data)
+
+// ---- put: the commit order of a store. The index entry (which promises an output id and a
+// size) is written only after the data file with exactly that id and size is in place, so a
+// crash between the two leaves at worst an unreferenced data file, never a promise without data.
+//@ func (*DiskCache).putIndexEntry
+//@   trusted
+//@   may_panic
+//@   modifies heap, ghost.disk, ghost.foff
+//@ func (*DiskCache).put
+//@   uses     shaspec, eq32
+//@   requires c != nil
+//@   requires dataOK(disk, c.fileName(sha(rdata(file)), "d"), sha(rdata(file)), len(rdata(file)))
+//@   nosafe   all
+//@   modifies heap, ghost.disk, ghost.foff, ghost.rpos, ghost.hashed
+//@   at call (*DiskCache).putIndexEntry#1 assert [datafirst] (c.fileName(out, "d") in disk) && len(disk[c.fileName(out, "d")]) == size && sha(disk[c.fileName(out, "d")]) == out
+//@   at call (*DiskCache).putIndexEntry#1 assert [what]      out == sha(rdata(file)) && size == len(rdata(file))
